@@ -37,7 +37,7 @@ fn check_case(rep: &Report, case: &Case, labels: &[String], local: &mut Local, w
         Ok((_, b)) => {
             if b != st {
                 let at = b.iter().zip(st.iter()).position(|(x, y)| x != y);
-                rep.violation("frame_level_vs_st", &format!("frame-by-frame assembly ({} bytes) differs from the single-thread stream ({} bytes) at byte {at:?}", b.len(), st.len()), case.json(), case.weight());
+                rep.violation_conclusive("frame_level_vs_st", &format!("frame-by-frame assembly ({} bytes) differs from the single-thread stream ({} bytes) at byte {at:?}", b.len(), st.len()), case.json(), case.weight());
             }
         }
         Err(EncFail::TooBig(_)) => {}
